@@ -240,7 +240,20 @@ def _expr_guards(node, stmt):
                     for cond in gen.ifs:
                         res.append((cond, True, 'comp-if'))
         elif isinstance(par, ast.comprehension):
-            pass
+            # inside a generator clause: the conditions of the clauses in front of
+            # it hold (and, for a later condition of the same clause, its earlier ones)
+            comp = parent(par)
+            if isinstance(comp, (ast.ListComp, ast.SetComp, ast.GeneratorExp, ast.DictComp)):
+                for gen in comp.generators:
+                    if gen is par:
+                        if cur in gen.ifs:
+                            for cond in gen.ifs[:gen.ifs.index(cur)]:
+                                res.append((cond, True, 'comp-if'))
+                        break
+                    for cond in gen.ifs:
+                        res.append((cond, True, 'comp-if'))
+            cur = comp
+            continue
         cur = par
     return res
 
